@@ -220,23 +220,24 @@ def kDos (nir nb nf nc : Nat) : List Nat := (dosLoop nir nb nf nc).all
 /-! ## the pragma inventory this model was written against (`tools/pragmas.py`, `canonical`, field `key`)
 
 Canonical form: file | external-linkage functions that reach the loop | directive | loop bound and `if` clause with
-the enclosing function's parameters named by position (`P<k>`, loop variable `V`, macros resolved) | other clauses |
+the parameters of the nearest external-linkage callers named by position (`P<k>`; static helpers are inlined along every
+call chain, single-assignment locals substituted, products folded and sorted; loop variable `V`, macros resolved) | other clauses |
 non-private function-scope locals written inside the parallel region (a race: must be empty) | shared objects written
 inside the region, followed through calls into helpers: pointer parameters by position, heap temporaries by element
 type and element count.  Names of static functions and of locals, `private(...)` lists versus declarations inside the
 loop body, statement order and index expressions are *not* part of it (index expressions are tied to the model by the
 sentinel/guard footprint runs). -/
 def inventory : List String := [
-  "c/_phonopy.cpp|py_thm_integration_weight_at_omegas|parallel for|V < num_omegas|if()||shared-locals[]|writes[param:0]",
+  "c/_phonopy.cpp|py_thm_integration_weight_at_omegas|parallel for|V < P1.shape(0)|if()||shared-locals[]|writes[param:0]",
   "c/derivative_dynmat.c|ddm_get_derivative_dynmat_at_q,phpy_get_derivative_dynmat_at_q,py_get_derivative_dynmat|parallel for|V < P1 * P1|if()||shared-locals[]|writes[param:0]",
   "c/dynmat.c|dym_dynamical_matrices_with_dd_openmp_over_qpoints,dym_get_dynamical_matrix_at_q,phpy_dynamical_matrices_with_dd_openmp_over_qpoints,py_get_dynamical_matrices_with_dd_openmp_over_qpoints|parallel for|V < P1 * P1|if()||shared-locals[]|writes[param:0]",
-  "c/dynmat.c|dym_dynamical_matrices_with_dd_openmp_over_qpoints,dym_get_recip_dipole_dipole,dym_get_recip_dipole_dipole_q0,phpy_dynamical_matrices_with_dd_openmp_over_qpoints,phpy_get_recip_dipole_dipole,phpy_get_recip_dipole_dipole_q0,py_get_dynamical_matrices_with_dd_openmp_over_qpoints,py_get_recip_dipole_dipole,py_get_recip_dipole_dipole_q0|parallel for|V < P2 * P2|if()||shared-locals[]|writes[param:0]",
-  "c/dynmat.c|dym_dynamical_matrices_with_dd_openmp_over_qpoints,dym_get_recip_dipole_dipole,dym_get_recip_dipole_dipole_q0,phpy_dynamical_matrices_with_dd_openmp_over_qpoints,phpy_get_recip_dipole_dipole,phpy_get_recip_dipole_dipole_q0,py_get_dynamical_matrices_with_dd_openmp_over_qpoints,py_get_recip_dipole_dipole,py_get_recip_dipole_dipole_q0|parallel for|V < P2|if(P10)||shared-locals[]|writes[temp:double[3][3]:P2]",
+  "c/dynmat.c|dym_dynamical_matrices_with_dd_openmp_over_qpoints,dym_get_recip_dipole_dipole,dym_get_recip_dipole_dipole_q0,phpy_dynamical_matrices_with_dd_openmp_over_qpoints,phpy_get_recip_dipole_dipole,phpy_get_recip_dipole_dipole_q0,py_get_dynamical_matrices_with_dd_openmp_over_qpoints,py_get_recip_dipole_dipole,py_get_recip_dipole_dipole_q0|parallel for|V < P2/P3|if(P13/P9)||shared-locals[]|writes[temp:double[3][3]:P2/P3]",
+  "c/dynmat.c|dym_dynamical_matrices_with_dd_openmp_over_qpoints,dym_get_recip_dipole_dipole,dym_get_recip_dipole_dipole_q0,phpy_dynamical_matrices_with_dd_openmp_over_qpoints,phpy_get_recip_dipole_dipole,phpy_get_recip_dipole_dipole_q0,py_get_dynamical_matrices_with_dd_openmp_over_qpoints,py_get_recip_dipole_dipole,py_get_recip_dipole_dipole_q0|parallel for|V < P3 * P3/P4 * P4|if()||shared-locals[]|writes[param:0,temp:double[2]:9 * P3 * P3]",
   "c/dynmat.c|dym_dynamical_matrices_with_dd_openmp_over_qpoints,phpy_dynamical_matrices_with_dd_openmp_over_qpoints,py_get_dynamical_matrices_with_dd_openmp_over_qpoints|parallel for|V < P2|if()||shared-locals[]|writes[param:0]",
   "c/dynmat.c|dym_dynamical_matrices_with_dd_openmp_over_qpoints,phpy_dynamical_matrices_with_dd_openmp_over_qpoints,py_get_dynamical_matrices_with_dd_openmp_over_qpoints|parallel for|V < P2|if()||shared-locals[]|writes[param:0]",
   "c/dynmat.c|dym_transform_dynmat_to_fc,phpy_transform_dynmat_to_fc,py_transform_dynmat_to_fc|parallel for|V < P8 * P9|if()||shared-locals[]|writes[param:0]",
-  "c/phonopy.c|phpy_get_tetrahedra_frequenies,py_get_tetrahedra_frequenies|parallel for|V < P7 * 96|if()||shared-locals[]|writes[param:0]",
-  "c/phonopy.c|phpy_get_thermal_properties,py_get_thermal_properties|parallel for|V < P5|if()||shared-locals[]|writes[temp:double:P5 * P4 * 3]",
+  "c/phonopy.c|phpy_get_tetrahedra_frequenies,py_get_tetrahedra_frequenies|parallel for|V < 96 * P7|if()||shared-locals[]|writes[param:0]",
+  "c/phonopy.c|phpy_get_thermal_properties,py_get_thermal_properties|parallel for|V < P5|if()||shared-locals[]|writes[temp:double:3 * P4 * P5]",
   "c/phonopy.c|phpy_tetrahedron_method_dos,py_tetrahedron_method_dos|parallel for|V < P9|if()||shared-locals[]|writes[param:0]"
 ]
 
@@ -324,18 +325,18 @@ def tIrGridPoints (nir ngp : Nat) (gmt : Nat → Nat) : Temp where
   accesses := for1 ngp fun i => if gmt i = i then [((List.range i).filter fun k => gmt k = k).length] else []
 
 def mallocInventory : List String := [
-  "c/derivative_dynmat.c|ddm_get_derivative_dynmat_at_q,phpy_get_derivative_dynmat_at_q,py_get_derivative_dynmat|double|P1 * P1 * 27",
-  "c/derivative_dynmat.c|ddm_get_derivative_dynmat_at_q,phpy_get_derivative_dynmat_at_q,py_get_derivative_dynmat|double|P1 * P1 * 9",
+  "c/derivative_dynmat.c|ddm_get_derivative_dynmat_at_q,phpy_get_derivative_dynmat_at_q,py_get_derivative_dynmat|double|27 * P1 * P1",
+  "c/derivative_dynmat.c|ddm_get_derivative_dynmat_at_q,phpy_get_derivative_dynmat_at_q,py_get_derivative_dynmat|double|9 * P1 * P1",
   "c/dynmat.c|dym_dynamical_matrices_with_dd_openmp_over_qpoints,dym_get_charge_sum,phpy_dynamical_matrices_with_dd_openmp_over_qpoints,phpy_get_charge_sum,py_get_dynamical_matrices_with_dd_openmp_over_qpoints|double[3]|P1",
-  "c/dynmat.c|dym_dynamical_matrices_with_dd_openmp_over_qpoints,dym_get_recip_dipole_dipole,dym_get_recip_dipole_dipole_q0,phpy_dynamical_matrices_with_dd_openmp_over_qpoints,phpy_get_recip_dipole_dipole,phpy_get_recip_dipole_dipole_q0,py_get_dynamical_matrices_with_dd_openmp_over_qpoints,py_get_recip_dipole_dipole,py_get_recip_dipole_dipole_q0|double[3][3]|P2",
-  "c/dynmat.c|dym_dynamical_matrices_with_dd_openmp_over_qpoints,dym_get_recip_dipole_dipole,phpy_dynamical_matrices_with_dd_openmp_over_qpoints,phpy_get_recip_dipole_dipole,py_get_dynamical_matrices_with_dd_openmp_over_qpoints,py_get_recip_dipole_dipole|double[2]|P4 * P4 * 9",
-  "c/dynmat.c|dym_dynamical_matrices_with_dd_openmp_over_qpoints,phpy_dynamical_matrices_with_dd_openmp_over_qpoints,py_get_dynamical_matrices_with_dd_openmp_over_qpoints|double[2]|P4 * P4 * 9",
-  "c/dynmat.c|dym_dynamical_matrices_with_dd_openmp_over_qpoints,phpy_dynamical_matrices_with_dd_openmp_over_qpoints,py_get_dynamical_matrices_with_dd_openmp_over_qpoints|double[3][3]|P5 * P5",
+  "c/dynmat.c|dym_dynamical_matrices_with_dd_openmp_over_qpoints,dym_get_recip_dipole_dipole,dym_get_recip_dipole_dipole_q0,phpy_dynamical_matrices_with_dd_openmp_over_qpoints,phpy_get_recip_dipole_dipole,phpy_get_recip_dipole_dipole_q0,py_get_dynamical_matrices_with_dd_openmp_over_qpoints,py_get_recip_dipole_dipole,py_get_recip_dipole_dipole_q0|double[3][3]|P2/P3",
+  "c/dynmat.c|dym_dynamical_matrices_with_dd_openmp_over_qpoints,dym_get_recip_dipole_dipole,phpy_dynamical_matrices_with_dd_openmp_over_qpoints,phpy_get_recip_dipole_dipole,py_get_dynamical_matrices_with_dd_openmp_over_qpoints,py_get_recip_dipole_dipole|double[2]|9 * P4 * P4",
+  "c/dynmat.c|dym_dynamical_matrices_with_dd_openmp_over_qpoints,phpy_dynamical_matrices_with_dd_openmp_over_qpoints,py_get_dynamical_matrices_with_dd_openmp_over_qpoints|double[2]|9 * P7 * P7",
+  "c/dynmat.c|dym_dynamical_matrices_with_dd_openmp_over_qpoints,phpy_dynamical_matrices_with_dd_openmp_over_qpoints,py_get_dynamical_matrices_with_dd_openmp_over_qpoints|double[3][3]|P7 * P7",
   "c/dynmat.c|dym_dynamical_matrices_with_dd_openmp_over_qpoints,phpy_dynamical_matrices_with_dd_openmp_over_qpoints,py_get_dynamical_matrices_with_dd_openmp_over_qpoints|double|3",
-  "c/dynmat.c|dym_get_recip_dipole_dipole_q0,phpy_get_recip_dipole_dipole_q0,py_get_recip_dipole_dipole_q0|double[2]|P3 * P3 * 9",
-  "c/dynmat.c|dym_get_recip_dipole_dipole_q0,phpy_get_recip_dipole_dipole_q0,py_get_recip_dipole_dipole_q0|double[2]|P3 * P3 * 9",
+  "c/dynmat.c|dym_get_recip_dipole_dipole_q0,phpy_get_recip_dipole_dipole_q0,py_get_recip_dipole_dipole_q0|double[2]|9 * P3 * P3",
+  "c/dynmat.c|dym_get_recip_dipole_dipole_q0,phpy_get_recip_dipole_dipole_q0,py_get_recip_dipole_dipole_q0|double[2]|9 * P3 * P3",
   "c/phonopy.c|phpy_distribute_fc2,py_distribute_fc2|int|P9",
-  "c/phonopy.c|phpy_get_thermal_properties,py_get_thermal_properties|double|P5 * P4 * 3",
+  "c/phonopy.c|phpy_get_thermal_properties,py_get_thermal_properties|double|3 * P4 * P5",
   "c/phonopy.c|phpy_perm_trans_symmetrize_compact_fc,phpy_set_index_permutation_symmetry_compact_fc,py_perm_trans_symmetrize_compact_fc,py_transpose_compact_fc|char|P5 * P6",
   "c/phonopy.c|phpy_set_smallest_vectors_dense,py_gsv_set_smallest_vectors_dense|double[3]|P7",
   "c/phonopy.c|phpy_set_smallest_vectors_dense,py_gsv_set_smallest_vectors_dense|double|P7",
